@@ -78,6 +78,25 @@ def profile_store(ctx):
     return st
 
 
+def epic_dep_store(ctx):
+    """epic-level dependencies in each condition: satisfied because everything in the prerequisite is finished, satisfied because the prerequisite
+    is empty, not satisfied; the dependent epics hold todo tasks (one of them also waiting for a sibling)"""
+    st = Rec(ctx)
+    def new(kind, d):
+        return json.loads(st.exec(["--json", "new", kind], json.dumps(d).encode())["stdout"])["id"]
+    for cond in ("finished", "empty", "open"):
+        a = new("epic", {"title": "prerequisite (%s)" % cond})
+        if cond != "empty":
+            ka = [new("task", {"title": "pre %d %s" % (i, cond), "epic": a}) for i in range(2)]
+            st.exec(["--json", "set", ka[0]], b'{"state":"done"}')
+            st.exec(["--json", "set", ka[1]], json.dumps({"state": "canceled" if cond == "finished" else "blocked"}).encode())
+        b = new("epic", {"title": "dependent (%s)" % cond})
+        kb = [new("task", {"title": "dep %d %s" % (i, cond), "epic": b}) for i in range(3)]
+        st.exec(["--json", "sequence", kb[0], kb[1]])
+        st.exec(["--json", "sequence", a, b])
+    return st
+
+
 def build_store(ctx, r):
     st = Rec(ctx)
     epics, tasks = [], []
@@ -100,6 +119,15 @@ def build_store(ctx, r):
         elif c < 42: st.exec(["--json", "set", t], b'{"state":"canceled"}')
         elif c < 50: st.exec(["--json", "set", t], b'{"state":"blocked"}')
         elif c < 56: st.exec(["--json", "--agent", r.pick(AGENTS), "set", t], b'{"state":"error"}')
+    if len(epics) >= 2 and r.p(45):
+        # an epic-level dependency that is *satisfied*: B waits for A, and everything in A is finished (or A is empty) — B's own tasks are then
+        # ready like any others and every view has to show them as such
+        st.exec(["--json", "sequence", epics[0], epics[1]])
+        g = st.graph()
+        if "graph" in g:
+            for t in g["graph"]["tasks"]:
+                if not t["is_epic"] and t["epic_id"] == epics[0] and t["st"] not in ("done", "canceled"):
+                    st.exec(["--json", "set", t["id"]], json.dumps({"state": "canceled" if t["st"] == "error" else "done"}).encode())
     return st
 
 
@@ -215,8 +243,8 @@ def run(ctx):
     special_cases(ctx)
     r = gen.Rng(ctx.seed * 1000003 + 19)
     widths = [None, 14, 16, 20, 40, 80, 132, 240]
-    for h in range(7 if ctx.quick else 80):
-        st = profile_store(ctx) if h == 0 else build_store(ctx, r.fork())
+    for h in range(8 if ctx.quick else 80):
+        st = profile_store(ctx) if h == 0 else epic_dep_store(ctx) if h == 1 else build_store(ctx, r.fork())
         try:
             g = st.graph()["graph"]
             trace = list(st.cmds)
